@@ -20,7 +20,7 @@ _Bool nondet_bool(void);
 #define SZ ((int) sizeof(IMB_JOB))
 
 static IMB_MGR st;
-extern const int cfg_n0, cfg_e0, cfg_nj; /* -1 (cfg_e0: -2) = symbolic */
+extern const int cfg_n0, cfg_e0, cfg_nj, cfg_k0; /* -1 (cfg_e0: -2) = symbolic */
 
 /* ---- ghost state ---- */
 static unsigned g_submit_calls, g_complete_calls, g_invalid_verdicts;
@@ -158,7 +158,7 @@ static void
 snap(void)
 {
 #ifdef CHECK_DESC
-        k0 = nondet_uint();
+        k0 = cfg_k0 >= 0 ? (unsigned) cfg_k0 : nondet_uint(); /* the runner issues one query per slot */
         __CPROVER_assume(k0 < (unsigned) N);
         pre_job = st.jobs[k0];
 #endif
